@@ -126,14 +126,15 @@ func LayerConvertFuncWithCompressionLevel(compressionLevel zstd.EncoderLevel, op
 		defer uncompressedReaderAt.Close()
 		uncompressedSR := io.NewSectionReader(uncompressedReaderAt, 0, uncompressedDesc.Size)
 		metadata := make(map[string]string)
-		opts = append(opts, estargz.WithCompression(&zstdCompression{
+		// Don't modify opts; this func is called for multiple layers in parallel.
+		layerOpts := append(opts[:len(opts):len(opts)], estargz.WithCompression(&zstdCompression{
 			new(zstdchunked.Decompressor),
 			&zstdchunked.Compressor{
 				CompressionLevel: compressionLevel,
 				Metadata:         metadata,
 			},
 		}))
-		blob, err := estargz.Build(uncompressedSR, append(opts, estargz.WithContext(ctx))...)
+		blob, err := estargz.Build(uncompressedSR, append(layerOpts, estargz.WithContext(ctx))...)
 		if err != nil {
 			return nil, err
 		}
